@@ -65,7 +65,7 @@ PORTFOLIO_CAP = 3
 _portfolio = {"n": 0}
 
 
-def discharge(pc, goal, timeout_ms=15000):
+def discharge(pc, goal, timeout_ms=8000):
     """valid(pc => goal)?  returns (status, backend, seconds, model|None)"""
     t0 = time.time()
     if goal is True:
@@ -109,7 +109,23 @@ def discharge(pc, goal, timeout_ms=15000):
         s.add(c)
     s.add(z3.Not(goal) if not isinstance(goal, bool) else z3.BoolVal(not goal))
     r = s.check()
+    if r == z3.unknown and _portfolio["n"] <= PORTFOLIO_CAP:
+        # quantifier instantiation is sensitive to the order / numbering of the terms the executor happened to build: the same
+        # query, printed and parsed again into a fresh context, is very often decided in a second or two (measured: the merge
+        # steps of reduce_ranges / __chars_to_ranges, 2 s instead of > 15 s).  Tried before the external portfolio.
+        try:
+            ctx2 = z3.Context()
+            s2 = z3.Solver(ctx=ctx2)
+            s2.set("timeout", timeout_ms)
+            s2.add(z3.parse_smt2_string(s.to_smt2(), ctx=ctx2))
+            r2 = s2.check()
+            if r2 == z3.unsat:
+                return "discharged", "z3-5.1(api, re-parsed)", time.time() - t0, None
+        except z3.Z3Exception:
+            pass
     dt = time.time() - t0
+    if os.environ.get("PVC_DUMP_SLOW") and dt > float(os.environ["PVC_DUMP_SLOW"]):
+        open(f"/tmp/slowvc_{int(time.time()*1000)%1000000}.smt2", "w").write(s.to_smt2())
     if r == z3.unsat:
         if CROSS["every"]:
             # thorough tier: every n-th discharged obligation is re-decided by two independent solver builds on the SMT-LIB
